@@ -4,6 +4,7 @@ package props
 
 import (
 	"fmt"
+	"strings"
 	"testing"
 
 	"go.flow.arcalot.io/engine/internal/verif/vcase"
@@ -189,7 +190,14 @@ func TestC02(t *testing.T) {
 			if !ok {
 				panic("harness failure: no shutdown-begin observation (binary built without schedule points?)")
 			}
-			_ = full
+			// The profile draws no expression whose evaluation can fail over produced data (no faults,
+			// no optional fields, no malformed plugin outputs): if the engine reports that it could not
+			// resolve the expressions of a step stage it tried to build the stage's input before the
+			// data its expressions refer to existed (a missing dependency edge under this schedule).
+			if full.Returned != nil && strings.Contains(full.Returned.Err, "cannot resolve expressions for steps.") {
+				st.Record(c, true, c.Labels)
+				return "the engine built the input of a step stage before everything its expressions refer to was produced: " + short(full.Returned.Err, 400)
+			}
 			ms := refModels(c, ans)
 			msg, consumers := checkDataflow(ms[0], ans)
 			if msg != "" && len(ms) > 1 {
